@@ -1,0 +1,67 @@
+//go:build verif
+
+// Machine-checked contracts (comments only) for the semaphore and notify-list
+// support behind sync.Mutex/RWMutex/WaitGroup/Cond; read by /verif/govc.
+// ghost(cas_dec): successful CompareAndSwap(addr, v, v-1) with v != 0;
+// ghost(cas_other): any other successful CAS; ghost(add_one): Add(addr, 1);
+// ghost(add_other), ghost(stores): other atomic writes. Cells not protected
+// by a held lock change arbitrarily between atomic operations.
+
+package runtime
+
+//@ func getSemaState
+//@ trusted
+//@ ensures result != nil
+//@ modifies nothing
+
+//@ func getNotifyState
+//@ trusted
+//@ ensures result != nil
+//@ modifies nothing
+
+//@ func semaAcquire
+//@ props C11
+//@ lock semaState.mu protects self.waiters
+//@ requires addr != nil
+//@ loop 1 invariant none-taken: ghost(cas_dec) == 0 && ghost(cas_other) == 0 && ghost(add_one) == 0 && ghost(add_other) == 0 && ghost(stores) == 0
+//@ loop 2 invariant none-taken: ghost(cas_dec) == 0 && ghost(cas_other) == 0 && ghost(add_one) == 0 && ghost(add_other) == 0 && ghost(stores) == 0
+//@ ensures C11 one-permit: ghost(cas_dec) == 1
+//@ ensures C11 nothing-else: ghost(cas_other) == 0 && ghost(add_one) == 0 && ghost(add_other) == 0 && ghost(stores) == 0
+//@ modifies everything
+
+//@ func semaRelease
+//@ props C11
+//@ lock semaState.mu protects self.waiters
+//@ requires addr != nil
+//@ ensures C11 one-permit: ghost(add_one) == 1 && ghost(add_other) == 0 && ghost(cas_dec) == 0 && ghost(cas_other) == 0 && ghost(stores) == 0
+//@ modifies everything
+
+//@ func sync_runtime_notifyListAdd
+//@ props C11
+//@ requires l != nil
+//@ ensures C11 ticket: ghost(add_one) == 1 && ghost(add_other) == 0 && ghost(stores) == 0 && ghost(cas_dec) == 0 && ghost(cas_other) == 0
+//@ ensures C11 ticket-value: result == l.wait - 1
+//@ modifies l.wait
+
+//@ func sync_runtime_notifyListWait
+//@ props C11
+//@ lock notifyState.mu protects l.notify
+//@ requires l != nil
+//@ loop 1 invariant no-writes: ghost(add_one) == 0 && ghost(add_other) == 0 && ghost(stores) == 0 && ghost(cas_dec) == 0 && ghost(cas_other) == 0
+//@ ensures C11 notified: int32(t - cs_new(l.notify)) < 0
+//@ ensures C11 no-writes: ghost(add_one) == 0 && ghost(add_other) == 0 && ghost(stores) == 0 && ghost(cas_dec) == 0 && ghost(cas_other) == 0
+//@ modifies everything
+
+//@ func sync_runtime_notifyListNotifyOne
+//@ props C11
+//@ lock notifyState.mu protects l.notify
+//@ requires l != nil
+//@ ensures C11 advance: cs_new(l.notify) == cs_old(l.notify) || cs_new(l.notify) == cs_old(l.notify) + 1
+//@ modifies everything
+
+//@ func sync_runtime_notifyListNotifyAll
+//@ props C11
+//@ lock notifyState.mu protects l.notify
+//@ requires l != nil
+//@ ensures C11 all: ghost(stores) == 1
+//@ modifies everything
